@@ -160,7 +160,7 @@ PROPS = {
         "theorems": ["ArgMapper.C01.flow_compat", "ArgMapper.C01.callGraph_edges", "ArgMapper.C01.call_args_flow", "ArgMapper.C01.initSt_storeOK", "ArgMapper.C01.flow_ruleFlow", "ArgMapper.C01.callGraph_store_origin", "ArgMapper.C01.injection_sound_partial", "ArgMapper.C01.counterexample_twin_interfaces", "ArgMapper.C01.newFunc_keysOK", "ArgMapper.C01.callGraph_no_arg_root", "ArgMapper.C01.stdCtx_funcsOK", "ArgMapper.C01.injection_sound"],
         "facts": {"r5SkipSame": "true", "r6NameTest": "true", "publishAfterUpdate": "true", "trackReaching": "true", "takeValuedNamed": "true", "hopCopies": "true", "memoCopy": "true"},
         "rule": "call: at least one function executed, or an unsatisfied error with a converter present.",
-        "runs": {"quick": [fam("call", 600, 0), fam("call", 200, 0, "gens"), fam("hist", 400, 0), fam("race", 40, 8, "40", bin="harness-race")], "thorough": [fam("call", 100000, 0), fam("call", 20000, 0, "gens"), fam("hist", 30000, 0), fam("race", 600, 8, "50", bin="harness-race")]},
+        "runs": {"quick": [fam("call", 600, 0), fam("call", 200, 0, "gens"), fam("hist", 400, 0), fam("redef", 300, 0), fam("call", 30, 0, "twin"), fam("race", 40, 8, "40", bin="harness-race")], "thorough": [fam("call", 100000, 0), fam("call", 20000, 0, "gens"), fam("hist", 30000, 0), fam("redef", 20000, 0), fam("call", 300, 0, "twin"), fam("race", 600, 8, "50", bin="harness-race")]},
     },
     "C06": {
         "claim": "Theorems (any oracle, behaviour, state): reach_never_out_of_fuel / call_never_out_of_fuel (recursion depth bounded by the number of function vertices), no_elem_or_unknown_panic, malformed_options, counterexample_mutual_cycle_diverges (the unrepaired model diverges on the F3 input), generator_error_reported / generators_transparent / runGens_perm (converter generators: an error on any visited value aborts with an error for every iteration order; otherwise the graph is callGraph of the builder extended by the generated converters). No panic, crash or unbounded recursion on well-formed use. Decided on the model's explicit panic sites and fuel; real stack / reflect behaviour by crash-isolated exploration (worker restarted after a fatal stack overflow).",
